@@ -1207,6 +1207,15 @@ func (mgr *Manager) UpdateTag(name string, operation UpdateTagOperation) error {
 				tag.color = info.color
 			}
 			if newTag != nil {
+				// check if all referenced tags exist and no reference cycle is created
+				for _, rtn := range newTag.referencedTags() {
+					if _, ok := mgr.tags[rtn]; !ok {
+						return fmt.Errorf("unknown referenced tag %q", rtn)
+					}
+					if mgr.tagReferences(rtn, name) {
+						return fmt.Errorf("tag %q references %q, reference cycles are not allowed", rtn, name)
+					}
+				}
 				newTag.color = tag.color
 				newTag.converters = tag.converters
 				newTag.referencedBy = tag.referencedBy
@@ -1391,6 +1400,27 @@ func (mgr *Manager) UpdateTag(name string, operation UpdateTagOperation) error {
 		close(c)
 	}
 	return <-c
+}
+
+// tagReferences reports whether the tag from references the tag to, directly or through other tags.
+func (mgr *Manager) tagReferences(from, to string) bool {
+	seen := map[string]struct{}{}
+	todo := []string{from}
+	for len(todo) != 0 {
+		n := todo[len(todo)-1]
+		todo = todo[:len(todo)-1]
+		if n == to {
+			return true
+		}
+		if _, ok := seen[n]; ok {
+			continue
+		}
+		seen[n] = struct{}{}
+		if t, ok := mgr.tags[n]; ok {
+			todo = append(todo, t.referencedTags()...)
+		}
+	}
+	return false
 }
 
 func (mgr *Manager) lock(indexes []*index.Reader) indexReleaser {
